@@ -1021,3 +1021,61 @@ Proof.
   destruct P2 as [(P2 & _)|(_ & P2)]; [injection P2 as P2; lia|].
   destruct (loc_inj _ _ _ P2) as (P & _). rewrite Ex', Hg in P. injection P as <-. lia.
 Qed.
+
+(** ** along the model's own trace *)
+Fixpoint model_ts (univ : list (Z * Z)) (c : config) (s : state) (ts : track * sched) (steps : list step) : track * sched :=
+  match steps with
+  | [] => ts
+  | st :: r =>
+      let p := obs_of univ 0 None [] s in let o := obs_step univ c s st in
+      model_ts univ c (apply c s st) (update_track (fst ts) p st o, update_sched (snd ts) (fst ts) p st o) r
+  end.
+
+Definition J4 (s : state) (ts : track * sched) : Prop :=
+  SL s /\ FB s /\ NoDup (keys (ctxs s)) /\ TI s (fst ts) /\ SI s (snd ts).
+
+Lemma J4_step univ c s st ts :
+  fresh_ctx s st -> good_step st -> J4 s ts ->
+  J4 (apply c s st) (update_track (fst ts) (obs_of univ 0 None [] s) st (obs_step univ c s st),
+                     update_sched (snd ts) (fst ts) (obs_of univ 0 None [] s) st (obs_step univ c s st)).
+Proof.
+  intros Hf Hg (Hsl & Hfb & Hk & Ht & Hi). pose proof (SL_apply_m c s st Hf Hsl) as Hsl'.
+  pose proof (apply_kc c s st Hk) as Hk'. destruct Hsl as ((Hq & Hb) & Hl).
+  split; [exact Hsl'|]. split; [apply FB_apply; exact Hfb|]. split; [exact Hk'|]. cbn [fst snd].
+  destruct st as [txh m|dt| | | | | | |];
+    try (split; [apply TI_nonend; [exact Hf|reflexivity|exact Ht]|apply SI_nonend; [exact Hf|split; assumption|reflexivity|exact Hi]]).
+  simpl in Hg. split; [apply TI_end; assumption|apply SI_end; try assumption; split; assumption].
+Qed.
+
+Lemma clause4_trace univ c : forall steps s ts,
+  fresh_history c s steps -> Forall good_step steps -> J4 s ts ->
+  forall pre st post, steps = pre ++ st :: post ->
+  forall seen fired pc pn pb,
+    holds_C08 seen fired (fst (model_ts univ c s ts pre)) (snd (model_ts univ c s ts pre))
+      (obs_of univ pc pn pb (run c s pre)) st (obs_step univ c (run c s pre) st) <> 4.
+Proof.
+  induction steps as [|st0 r IH]; intros s ts Hf Hg HJ pre st post E seen fired pc pn pb.
+  - destruct pre; discriminate E.
+  - destruct Hf as (F1 & F2). inversion Hg as [|? ? G1 G2]; subst.
+    destruct pre as [|st1 pre'].
+    + cbn [app] in E. injection E as <- _. cbn [run model_ts]. destruct HJ as (((Hq & _) & Hl) & Hfb & Hk & Ht & Hi).
+      apply c08_clause4_obs; assumption.
+    + cbn [app] in E. injection E as <- E. cbn [run model_ts].
+      exact (IH _ _ F2 G2 (J4_step univ c s st0 ts F1 G1 HJ) pre' st post E seen fired pc pn pb).
+Qed.
+
+Theorem model_passes_C08_clause_4_lemma :
+  forall c steps h0 t0 l0 univ,
+    NoDup (create_txhs steps) -> Forall good_step steps ->
+    forall pre st post, steps = pre ++ st :: post ->
+    forall seen fired pc pn pb,
+      let s := run c (init h0 t0 l0) pre in
+      let ts := model_ts univ c (init h0 t0 l0) ([], []) pre in
+      holds_C08 seen fired (fst ts) (snd ts) (obs_of univ pc pn pb s) st (obs_step univ c s st) <> 4.
+Proof.
+  intros c steps h0 t0 l0 univ Hnd Hg pre st post E seen fired pc pn pb s ts. subst s ts.
+  apply (clause4_trace univ c steps (init h0 t0 l0) ([], [])) with (post := post); try assumption.
+  - apply fresh_history_from_distinct_hashes_lemma. exact Hnd.
+  - split; [split; [apply SInv_init|apply LInv_init]|]. split; [intros id x Hgx; simpl in Hgx; discriminate|].
+    split; [simpl; constructor|]. split; [intros id n hh Hx|intros id hh Hx]; simpl in Hx; discriminate.
+Qed.
